@@ -37,6 +37,20 @@ pub fn hash_order_into_output(names: &HashSet<String>) -> String {
     out
 }
 
+/// C04/C18: a hash collection handed over as an iterable (`String::extend(set)`): the iteration happens inside the callee
+pub fn hash_passed_as_iterable(names: HashSet<String>) -> String {
+    let mut out = String::new();
+    out.extend(names);
+    out
+}
+
+/// C18: set -> sorted set is order-free and must NOT be flagged
+pub fn hash_passed_to_sorted(names: HashSet<String>) -> std::collections::BTreeSet<String> {
+    let mut out = std::collections::BTreeSet::new();
+    out.extend(names);
+    out
+}
+
 /// C18: map -> map is order-free and must NOT be flagged
 pub fn hash_to_hash(m: HashMap<String, u32>) -> HashMap<u32, String> {
     m.into_iter().map(|(k, v)| (v, k)).collect()
